@@ -128,12 +128,20 @@ func runC07n(seed int64, count int) {
 			ninv := 1 + rng.Intn(3)
 			for inv := 0; inv < ninv; inv++ {
 				headVal, headName = nil, "-"
-				tr.FailWrite = nil
+				tr.FailWrite, tr.FailFlush, tr.PartialOnFail = nil, nil, false
 				if rng.Intn(3) == 0 {
 					vk := []string{"err", "nft", "nto"}[rng.Intn(3)]
 					hv := mkVal(vk, 9000+10*cs+inv)
 					headVal, headName = hv, fmt.Sprintf("%s:%d", vk, 9000+10*cs+inv)
-					tr.FailWrite = func(int) error { return hv.(error) }
+					switch rng.Intn(3) { // how the transport fails under the head handler
+					case 0:
+						tr.FailWrite = func(int) error { return hv.(error) }
+					case 1: // after it has taken part of the payload
+						tr.FailWrite = func(int) error { return hv.(error) }
+						tr.PartialOnFail = true
+					default: // the write is taken, the flush fails
+						tr.FailFlush = func(int) error { return hv.(error) }
+					}
 				}
 				entries := []string{"chwrite", "chwrite", "chtrigger", "read", "active", "ctx", "ctx"}
 				entry := entries[rng.Intn(len(entries))]
